@@ -253,7 +253,7 @@ def ni5(ctx):
             if cb.generic_dup():
                 continue
             n += 1
-            tried = any(e['kind'] == 'err_prop' and e.get('call') is cs for e in cb.exits())
+            tried = any(e['kind'] == 'err_prop' and (e.get('call') is cs or cs in e.get('calls', ())) for e in cb.exits())
             # the Continue payload () is not used for anything
             ctx.check(tried and b.ret_ty == 'std::result::Result<(), std::io::Error>', '%s<-%s' % (b.path, cb.path), where(cb, cs.point), 'consult result is io::Result<()> consumed by `?`',
                       'the policy consult returns data or its result is inspected by the caller: the policy could steer the caller')
